@@ -11,9 +11,9 @@ faithful deliveries.  `H` is the file hash (MD5 in the code); it is a parameter,
 contents compared" is a hypothesis wherever it is needed, never an axiom.  `r.success` / `s.success` = the job is
 in `FinishedState` with `NoError`; `r.acc` = contents of the receiver's output device.
 
-Counters: the model keeps the `int` counters of both jobs as `Nat` and the wire field as `UInt16`, exactly the
-types the comparison `iq.sequence() != job->d->ibbSequence` sees (`int` overflow of the *sender's* counter after
-2^31 blocks is outside the model; the receiver's counter cannot get there, see `RInv`).
+Counters: both jobs keep `quint16 ibbSequence` (since repo commit 49cbe2e; it was `int` before, which made every
+transfer of more than 65536 blocks fail — the former `C19_defect_seq_wrap`).  The model uses `UInt16` for both
+counters and the wire field: all wrap from 65535 to 0 as XEP-0047 prescribes.
 -/
 namespace Qx.C19
 
@@ -39,17 +39,35 @@ theorem success_implies_identical_bytes (H : List UInt8 → List UInt8) (bsS bsR
     (init bsS bsR size (some (H data)) data) rfl)
   exact this
 
-/-- **Success ⇒ identical bytes by the sequence numbers and the size alone** (no hash needed, none assumed).
-For every file, block sizes, announced hash (present, absent or wrong) and every history of a channel that loses,
+/-
+Full statement (no bound on the number of blocks):
+
+  ∀ H bsS bsR hash data ops, (∀ op ∈ ops, op.benign) →
+    (run H (init bsS bsR data.length hash data) ops).1.r.success → (run H (init bsS bsR data.length hash data) ops).1.r.acc = data
+
+Only the part for files of at most 65536 blocks is proved.  Without a hash, XEP-0047 itself cannot do better against a
+channel that is able to hold back a copy of a block: the sequence number is 16 bits and wraps, so a block replayed
+exactly 65536 blocks later carries the number the receiver expects and, having the same length, also passes the size
+check.  The op alphabet of this model has no such long-delay replay (`dup` delivers both copies at once, `swap` only
+exchanges neighbours), so for THIS alphabet the full statement is not refuted, merely unproved: the invariant used
+("the receiver holds the first `expected` blocks") needs block indices below 65536 to read them off the wire number.
+With a hash announced the unconditional theorem above applies.
+-/
+
+/-- **Success ⇒ identical bytes by the sequence numbers and the size alone — partial: at most 65536 blocks**
+(`data.length ≤ 65536 * bsS`; missing part: longer files, see the comment above).  No hash needed, none assumed.
+For every such file, block sizes, announced hash (present, absent or wrong) and every history of a channel that loses,
 duplicates, reorders, mislabels, cuts short and lets third parties or other sessions interfere — but does not alter
 payloads or forge requests in the sender's name (`Op.benign`) — with the true size announced: if the receiving job
-reports success it holds exactly the sender's bytes.  Invariant: the receiver holds the first `expected` blocks. -/
-theorem success_implies_identical_bytes_by_sequence (H : List UInt8 → List UInt8) (bsS bsR : Nat)
-    (hash : Option (List UInt8)) (data : List UInt8) (ops : List Op) (hb : ∀ op ∈ ops, op.benign) :
+reports success it holds exactly the sender's bytes.  Invariant: the receiver holds the first `expected` blocks (or,
+after a complete 65536-block file and a wrapped counter, more bytes than the file has — never success again). -/
+theorem success_implies_identical_bytes_by_sequence_partial (H : List UInt8 → List UInt8) (bsS bsR : Nat)
+    (hash : Option (List UInt8)) (data : List UInt8) (hlen : data.length ≤ 65536 * bsS)
+    (ops : List Op) (hb : ∀ op ∈ ops, op.benign) :
     (run H (init bsS bsR data.length hash data) ops).1.r.success →
     (run H (init bsS bsR data.length hash data) ops).1.r.acc = data := by
   intro hs
-  have hi := inv_run H data bsS ops _ hb (inv_init bsS bsR data.length hash data)
+  have hi := inv_run H data bsS hlen ops _ hb (inv_init bsS bsR data.length hash data)
   have hc := run_checked H ops _ (checked_init H bsS bsR data.length hash data)
   have hsz : (run H (init bsS bsR data.length hash data) ops).1.r.size = data.length :=
     run_r_inv H (fun r => r.size = data.length)
@@ -58,73 +76,45 @@ theorem success_implies_identical_bytes_by_sequence (H : List UInt8 → List UIn
 
 /-! ## The fault-free run -/
 
-/-
-Full statement demanded by the property ("for every file content and size and every negotiated block size …
-both sides reporting success"):
-
-  ∀ H bsS bsR data withHash, 0 < bsS → bsS ≤ bsR →
-    let st := (run H (init bsS bsR data.length (if withHash then some (H data) else none) data) (honest (data.length + 2))).1
-    st.r.success ∧ st.s.success ∧ st.r.acc = data
-
-It is FALSE for today's code (`C19_defect_seq_wrap`); what holds is the statement for files of at most 65536 blocks.
--/
-
-/-- **Fault-free run succeeds — partial: at most 65536 blocks** (`data.length ≤ 65536 * bsS`).  Missing part: longer
-files, where the property fails on today's code (next theorem).  For every such file, every negotiated block size
-(`0 < bsS ≤ bsR`), with or without an announced hash: after `data.length + 2` faithful deliveries (enough for
-`<open/>`, every block and `<close/>`) both jobs report success, the receiver holds exactly the file and nothing is
-left in the channel. -/
-theorem honest_run_succeeds_partial (H : List UInt8 → List UInt8) (bsS bsR : Nat) (data : List UInt8) (withHash : Bool)
-    (hb : 0 < bsS) (hle : bsS ≤ bsR) (hlen : data.length ≤ 65536 * bsS) :
+/-- **The fault-free run succeeds — in full**, for every file content and size (no bound on the number of blocks: the
+16-bit counters of both jobs wrap together) and every negotiated block size (`0 < bsS ≤ bsR`), with or without an
+announced hash: after `data.length + 2` faithful deliveries (enough for `<open/>`, every block and `<close/>`) both
+jobs report success, the receiver holds exactly the file and nothing is left in the channel.
+(Before repo commit 49cbe2e this was false from 65537 blocks on; the witness — block size 1, 65537 bytes — is the
+first entry of the harness corpus and must succeed on the real code.) -/
+theorem honest_run_succeeds (H : List UInt8 → List UInt8) (bsS bsR : Nat) (data : List UInt8) (withHash : Bool)
+    (hb : 0 < bsS) (hle : bsS ≤ bsR) :
     let st := (run H (init bsS bsR data.length (if withHash then some (H data) else none) data) (honest (data.length + 2))).1
     st.r.success ∧ st.s.success ∧ st.r.acc = data ∧ st.pending = none := by
-  apply honest_run H bsS bsR data.length _ data hb hle hlen
+  apply honest_run H bsS bsR data.length _ data hb hle
   refine ⟨fun _ => rfl, ?_⟩
   intro h hh
   cases withHash <;> simp at hh
   exact hh
 
-/-- **Defect (sequence wrap).** The fault-free run does NOT succeed for every file: with block size 1 and a file of
-65537 bytes (65537 blocks — the smallest number that triggers it), block 65536 is sent with the 16-bit wire sequence
-number 0 while the receiver compares with its `int` counter 65536; it answers `<unexpected-request/>`, the sender
-ends with `ProtocolError`, the receiver with `FileCorruptError` holding only the first 65536 bytes. -/
-theorem C19_defect_seq_wrap :
-    ¬ ∀ (H : List UInt8 → List UInt8) (bsS bsR : Nat) (data : List UInt8) (withHash : Bool), 0 < bsS → bsS ≤ bsR →
-      let st := (run H (init bsS bsR data.length (if withHash then some (H data) else none) data) (honest (data.length + 2))).1
-      st.r.success ∧ st.s.success ∧ st.r.acc = data := by
-  intro h
-  have h1 := h (fun _ => []) 1 1 (List.replicate 65537 0) false (by decide) (by decide)
-  have hlen : (List.replicate 65537 (0 : UInt8)).length = 65537 := List.length_replicate ..
-  simp only [hlen] at h1
-  have hp := honest_prefix (fun _ => []) 1 1 65537 none (List.replicate 65537 0) (by decide) (by decide) 65536 (by decide)
-    (by rw [hlen]; decide)
-  have hw := atBlock_wrap (fun _ => []) 1 1 none (List.replicate 65537 0) (by rw [hlen]; decide)
-  rw [hlen] at hw
-  have e : (run (fun _ => []) (init 1 1 65537 none (List.replicate 65537 0)) (honest (65537 + 2))).1 =
-      (run (fun _ => []) (atBlock 1 1 65537 none (List.replicate 65537 0) 65536) (honest 2)).1 := by
-    rw [honest_add, run_append, hp]
-  have hs := h1.1
-  simp only [Bool.false_eq_true, if_false] at hs
-  rw [e] at hs
-  have := hw.2.1
-  rw [hs.2] at this
-  cases this
-
 /-! ## Faults -/
 
-/-- **A lost, reordered or mislabelled block, or a stream cut short, is never reported as success.**
-For every file of at most 65536 blocks, every negotiated block size, every announced hash (or none), every data
+/-
+Full statement: the theorem below without `hlen`.  Unproved beyond 65536 blocks: the proof shows that after the fault
+no later block of the sender can carry the sequence number the receiver waits for, which reads block indices off
+16-bit wire numbers and therefore needs indices below 65536 (a continuation that goes on losing 65535 further blocks
+lets block `j + 65536` into slot `j`; the byte count is then short, so success still seems impossible, but that
+counting argument is not formalised).
+-/
+
+/-- **A lost, reordered or mislabelled block, or a stream cut short, is never reported as success — partial: at most
+65536 blocks** (missing part: longer files, see the comment above).
+For every such file, every negotiated block size, every announced hash (or none), every data
 block `j` (`j * bsS < data.length`): after `j + 1` faithful deliveries (the channel now holds block `j`) let ONE of
 `drop` (block lost, sender told it arrived), `swap` (next request overtakes it), `earlyClose` (`<close/>` arrives
 while data is outstanding), `wrongSid`, `wrongSender` happen, followed by ANY continuation of a channel that does not
 alter or forge (in particular the honest one): the receiving job never reports success. -/
-theorem fault_never_success (H : List UInt8 → List UInt8) (bsS bsR : Nat) (hash : Option (List UInt8)) (data : List UInt8)
+theorem fault_never_success_partial (H : List UInt8 → List UInt8) (bsS bsR : Nat) (hash : Option (List UInt8)) (data : List UInt8)
     (hb : 0 < bsS) (hle : bsS ≤ bsR) (hlen : data.length ≤ 65536 * bsS)
     (j : Nat) (hblk : j * bsS < data.length)
     (f : Op) (hf : f ∈ [Op.drop, .swap, .earlyClose, .wrongSid, .wrongSender]) (cont : List Op) (hc : ∀ op ∈ cont, op.benign) :
     ¬ (run H (init bsS bsR data.length hash data) (honest (j + 1) ++ f :: cont)).1.r.success := by
-  have hj : j < 65536 := idx_lt data bsS j hlen hblk
-  rw [run_append, honest_prefix H bsS bsR data.length hash data hb hle j (by omega) hblk]
+  rw [run_append, honest_prefix H bsS bsR data.length hash data hb hle j hblk]
   show ¬ (run H (step H (atBlock bsS bsR data.length hash data j) f).1 cont).1.r.success
   simp only [List.mem_cons, List.mem_nil_iff, or_false] at hf
   rcases hf with rfl | rfl | rfl | rfl | rfl
@@ -136,53 +126,52 @@ theorem fault_never_success (H : List UInt8 → List UInt8) (bsS bsR : Nat) (has
   · exact doomed_never_success H data bsS j hlen _ (wrongSender_doomed H bsS bsR hash data j hlen hblk) cont hc
 
 /-- **An altered block is never reported as success — when the offer carried the hash.**
-For every file of at most 65536 blocks, block sizes, data block `j`, bit position, and ANY continuation whatsoever
+For every file (any number of blocks), block sizes, data block `j`, bit position, and ANY continuation whatsoever
 (even forging): if one bit of block `j` is flipped in transit, the receiving job does not report success, provided
 MD5 does not collide between what the receiver ends up holding and the file (`hcoll`). -/
 theorem altered_block_never_success (H : List UInt8 → List UInt8) (bsS bsR size : Nat) (data : List UInt8)
-    (hb : 0 < bsS) (hle : bsS ≤ bsR) (hlen : data.length ≤ 65536 * bsS)
+    (hb : 0 < bsS) (hle : bsS ≤ bsR)
     (j : Nat) (hblk : j * bsS < data.length) (bit : Nat) (cont : List Op)
     (hcoll : H (run H (init bsS bsR size (some (H data)) data) (honest (j + 1) ++ .flip bit :: cont)).1.r.acc = H data →
              (run H (init bsS bsR size (some (H data)) data) (honest (j + 1) ++ .flip bit :: cont)).1.r.acc = data) :
     ¬ (run H (init bsS bsR size (some (H data)) data) (honest (j + 1) ++ .flip bit :: cont)).1.r.success := by
   intro hs
   have hid := success_implies_identical_bytes H bsS bsR size data _ hcoll hs
-  have hj : j < 65536 := idx_lt data bsS j hlen hblk
-  rw [run_append, honest_prefix H bsS bsR size (some (H data)) data hb hle j (by omega) hblk] at hid
+  rw [run_append, honest_prefix H bsS bsR size (some (H data)) data hb hle j hblk] at hid
   have hpre : ∃ t, (run H (step H (atBlock bsS bsR size (some (H data)) data j) (.flip bit)).1 cont).1.r.acc =
       (data.take (j * bsS) ++ flipBit ((data.drop (j * bsS)).take bsS) bit) ++ t :=
-    run_acc_prefix H _ cont _ ⟨[], by rw [flip_acc H bsS bsR size _ data j hj bit]; simp⟩
+    run_acc_prefix H _ cont _ ⟨[], by rw [flip_acc H bsS bsR size _ data j bit]; simp⟩
   obtain ⟨t, ht⟩ := hpre
   have hid' : (run H (step H (atBlock bsS bsR size (some (H data)) data j) (.flip bit)).1 cont).1.r.acc = data := hid
   rw [ht] at hid'
   exact altered_prefix_ne data (j * bsS) bsS _ t (by simp)
     (flipBit_ne _ bit (take_drop_ne_nil data (j * bsS) bsS hblk hb)) hid'
 
-/-- **Defect / protocol limit (no hash announced).** Without an announced hash the same statement is FALSE: a file
+/-- **Defect / protocol limit (no hash announced; recorded finding `C19:nohash-altered-accepted`).** Without an announced hash the same statement is FALSE: a file
 of one byte `00`, block size 1, bit 0 of the only block flipped — the receiver reports success holding `01`.
 (`checkData` compares the hash only "if the offer carried one"; XEP-0096 makes it optional.) -/
 theorem C19_defect_nohash_altered_accepted :
     ¬ ∀ (H : List UInt8 → List UInt8) (bsS bsR : Nat) (data : List UInt8) (j bit : Nat) (cont : List Op),
-      0 < bsS → bsS ≤ bsR → data.length ≤ 65536 * bsS → j * bsS < data.length →
+      0 < bsS → bsS ≤ bsR → j * bsS < data.length →
       ¬ (run H (init bsS bsR data.length none data) (honest (j + 1) ++ .flip bit :: cont)).1.r.success := by
   intro h
-  exact h (fun _ => []) 1 1 [0] 0 0 [.deliver] (by decide) (by decide) (by decide) (by decide) (by decide)
+  exact h (fun _ => []) 1 1 [0] 0 0 [.deliver] (by decide) (by decide) (by decide) (by decide)
 
-/-- **A duplicated block is refused and harmless.**  For every file, block sizes and data block `j < 65536`: delivering
+/-- **A duplicated block is refused and harmless.**  For every file, block sizes and data block `j`: delivering
 block `j` twice leaves both jobs and the channel in exactly the state of delivering it once; the second copy is
 answered with `<unexpected-request/>` and not written (the receiver holds blocks `0 … j`, once each).  Together with
-`honest_run_succeeds_partial` / `success_implies_identical_bytes_by_sequence`: the transfer then completes with
+`honest_run_succeeds` / `success_implies_identical_bytes_by_sequence_partial`: the transfer then completes with
 identical bytes — the duplicate is reported as a protocol error to the peer, the job itself is not failed. -/
 theorem duplicate_is_refused_and_harmless (H : List UInt8 → List UInt8) (bsS bsR size : Nat) (hash : Option (List UInt8))
-    (data : List UInt8) (hb : 0 < bsS) (hle : bsS ≤ bsR) (j : Nat) (hj : j < 65536) (hblk : j * bsS < data.length) :
+    (data : List UInt8) (hb : 0 < bsS) (hle : bsS ≤ bsR) (j : Nat) (hblk : j * bsS < data.length) :
     let st := (run H (init bsS bsR size hash data) (honest (j + 1))).1
     (step H st .dup).1 = (step H st .deliver).1 ∧
     (step H st .dup).2.map (·.err) = [none, some .unexpectedRequest] ∧
     (step H st .dup).1.r.acc = data.take ((j + 1) * bsS) := by
   intro st
-  have : st = atBlock bsS bsR size hash data j := honest_prefix H bsS bsR size hash data hb hle j (by omega) hblk
+  have : st = atBlock bsS bsR size hash data j := honest_prefix H bsS bsR size hash data hb hle j hblk
   rw [this]
-  obtain ⟨h1, h2, h3⟩ := dup_eq_deliver H bsS bsR size hash data j hj
+  obtain ⟨h1, h2, h3⟩ := dup_eq_deliver H bsS bsR size hash data j
   exact ⟨h1, by rw [h2]; rfl, h3⟩
 
 /-! ## SOCKS5 byte stream (no sequence numbers; stream-host / proxy negotiation outside the model) -/
